@@ -140,9 +140,11 @@ Definition tick (s : state) : state :=
 Definition set_rem (s : state) (r : N) : state :=
   mkState (st_stack s) (st_calls s) (st_globals s) (st_heap s) (st_open s) (st_log s) (st_count s) r.
 
-(* RuntimeData::clear (objects are simply forgotten by the model) *)
+(* RuntimeData::clear: every object is freed, the value stack is reset (count = 0, slot 0 := nil, the other dead
+   slots keep their now dangling contents, which no instruction reads), globals, frames and the open-upvalue
+   list are emptied. The host log and the ghost counter are not VM state. *)
 Definition clear_state (s : state) : state :=
-  mkState (fst (vs_step VNil (st_stack s) (VClear value))) [] [] (st_heap s) None (st_log s) (st_count s) (st_rem s).
+  mkState (fst (vs_step VNil (st_stack s) (VClear value))) [] [] [] None (st_log s) (st_count s) (st_rem s).
 
 (* value stack through the Stacks.v model *)
 Definition spush (s : state) (v : value) : option state :=
